@@ -16,8 +16,8 @@
     * a NULL list pointer is the empty list; `data == NULL` / `table == NULL` are `none`;
     * `path_len` / `sigs_len` are the lengths of the lists (the API maintains them, "do not edit
       manually"); they are unbounded here, i.e. the model describes the code with counters that
-      do not wrap (`uint8_t path_len` wraps at 256 in the current tree: finding F19);
-    * stream offsets are unbounded (`uint16_t` in the current tree: total size must stay < 65536);
+      do not wrap (`uint8_t path_len` wraps at 256 in the current tree: finding Fbgp1);
+    * stream offsets are unbounded (`uint16_t` in the current tree: total size must stay < 65536, finding Fbgp2);
     * `sig_len` is `sig.length`, `nlri->nlri` holds exactly `(nlri_len+7)/8` bytes;
     * `stop = false` is the validation loop of the current tree (bounded by the stream offset only),
       `stop = true` the repaired loop that also ends with the Signature Segment list;
